@@ -73,9 +73,9 @@ func c12(r *report.Run) {
 	order := int64(0)
 	distinct := map[string]bool{}
 	// ---- strings ----
-	maxLen := 2
+	maxLen := 3
 	if r.Tier == "thorough" {
-		maxLen = 3
+		maxLen = 4 // 4-rune strings with at most two runes in a non-default spelling
 	}
 	var strs [][]rune
 	var rec func(cur []rune)
@@ -103,6 +103,18 @@ func c12(r *report.Run) {
 				total *= len(sp[k])
 			}
 			for c := 0; c < total; c++ {
+				if len(rs) == 4 {
+					nz := 0
+					for x, k := c, 0; k < len(rs); k++ {
+						if x%len(sp[k]) != 0 {
+							nz++
+						}
+						x /= len(sp[k])
+					}
+					if nz > 2 {
+						continue
+					}
+				}
 				var sb strings.Builder
 				sb.WriteRune(q)
 				x := c
@@ -429,7 +441,7 @@ func c12Positions(r *report.Run, evals *int64, orderBase int64) int64 {
 		for i := 0; i < L; i++ {
 			total *= nt * len(c12WS)
 		}
-		if L == 3 && r.Tier == "quick" {
+		if L == 3 && r.Tier == "never" { // the reduced form of the first version; the full product is affordable
 			// length 3: all token triples, whitespace uniform per layout + the first gap varied
 			total = nt * nt * nt * len(c12WS) * len(c12WS)
 			par.For(total, func(i int) {
